@@ -50,6 +50,7 @@ class CertImpl:
         self.fs = MemFS()
         self.prefix = os.path.join(env.MIDDLEWARE, "")
         self.real_datetime = V2.datetime
+        self.max_lines_seen = 0
 
     # ---- budgeted call ----------------------------------------------------------------
     def budgeted(self, fn, max_lines=200000, wall_s=30):
@@ -84,7 +85,9 @@ class CertImpl:
         except Budget as b:
             return ("budget", str(b))
         except Exception as e:   # noqa
+            self.max_lines_seen = max(self.max_lines_seen, count[0])
             return ("raise", e)
+        self.max_lines_seen = max(self.max_lines_seen, count[0])
         return r
 
     # ---- loading ------------------------------------------------------------------------
